@@ -11,9 +11,10 @@ the time-sorted `RingIndex.List` (ring_index.go).
 * `set.Set[*DiachronicFlow]` is a duplicate-free sorted `List Nat` of keys; the map
   `diachronics` is an association list sorted by key.
 * the sentinel `0` ("no bound") of `FlowSet` / `Within` / `GetWindows` is modelled literally.
-* `EmitFlowCollections` loops until it finds a pushed bucket or has walked the ring; the model
-  uses `n + 1` units of fuel (the Go loop does not terminate for `bucketsToAggregate = 0`
-  on a ring without pushed buckets; such configurations are excluded).
+* `EmitFlowCollections` walks back window by window while the window's oldest bucket is less than `n`
+  buckets back from the head (commit "bound the backward walk of goldmane's flow emission by the ring
+  size"); the model's loop carries `n` units of fuel which are never what stops it
+  (`emit_walk_terminates`).
 Core Lean only.
 -/
 namespace CalicoVerif.C32
@@ -150,31 +151,32 @@ def Ring.maybeBuild (r : Ring) (s e : Nat) : Option Coll :=
     if within ws st en then some (k, (aggregate ws st en).1) else none)
   some { start := st, stop := en, flows := flows, idxs := idxs }
 
-/-- `indexBetween`. -/
-def indexBetween (s e t : Nat) : Bool :=
-  if s = e then false else if s < e then decide (t > s ∧ t < e) else decide (t > s ∨ t < e)
-
-/-- the collection-building loop of `EmitFlowCollections` (newest first). -/
-def Ring.buildLoop (r : Ring) : Nat → Nat → Nat → List Coll
-  | 0, _, _ => []
-  | fuel + 1, s, e =>
-    match r.maybeBuild s e with
-    | none => []
-    | some c =>
-      let e' := s
-      let s' := r.idxSub s r.agg
-      if indexBetween s' e' r.head then [c] else c :: r.buildLoop fuel s' e'
-
 def Ring.markPushed (r : Ring) (idxs : List Nat) : Ring :=
   { r with buckets := idxs.foldl (fun bs i => bs.set i { (bs.getD i emptyBucket) with pushed := true }) r.buckets }
+
+/-- the collection-building loop of `EmitFlowCollections`: `oldest` = how many buckets back from the head
+the oldest bucket of the window `[s, e)` is; a window is only built while `oldest < n` (the oldest bucket
+of the ring is `n - 1` back), and the walk ends at the first window whose oldest bucket is already pushed. -/
+def Ring.buildLoop2 (r : Ring) : Nat → Nat → Nat → Nat → List Coll
+  | 0, _, _, _ => []
+  | fuel + 1, oldest, s, e =>
+    if oldest < r.n then
+      match r.maybeBuild s e with
+      | none => []
+      | some c => c :: r.buildLoop2 fuel (oldest + r.agg) (r.idxSub s r.agg) s
+    else []
+
+/-- the collections built by one `EmitFlowCollections`, newest first (`bucketsToAggregate < 1`: none) -/
+def Ring.built (r : Ring) : List Coll :=
+  let nowIdx := r.idxSub r.head 1
+  let e := r.idxSub nowIdx r.pushAfter
+  let s := r.idxSub e r.agg
+  if r.agg < 1 then [] else r.buildLoop2 r.n (1 + r.pushAfter + r.agg) s e
 
 /-- `EmitFlowCollections(sink)`: returns the ring and the collections received by the sink, in the
 order received (oldest first); empty collections are neither sent nor completed. -/
 def Ring.emit (r : Ring) : Ring × List Coll :=
-  let nowIdx := r.idxSub r.head 1
-  let e := r.idxSub nowIdx r.pushAfter
-  let s := r.idxSub e r.agg
-  let sent := ((r.buildLoop (r.n + 1) s e).reverse).filter (fun c => !c.flows.isEmpty)
+  let sent := (r.built.reverse).filter (fun c => !c.flows.isEmpty)
   (sent.foldl (fun r c => r.markPushed c.idxs) r, sent)
 
 /-- `Rollover(sink)`; returns (ring, returned start time, collections received by the sink). -/
